@@ -373,82 +373,7 @@ func c13Scenarios(disk bool) []*schedScenario {
 		}
 	}
 	if !disk {
-		// s8d: two CAs name the same responder address and have issued the same serial number; the certificate of CA A is
-		// revoked, the one of CA B is good. Both are presented at the same moment on one checker: the answer to one lookup
-		// is never the answer to the other (every sequential order says REVOKED, OK)
-		oc := newC14Cast()
-		shared := world.Issue(oc.caB, world.CertOpt{CN: "c13 same serial other issuer same responder", Serial: oc.c1.Cert.SerialNumber, KeyKind: "ec", KeyIdx: 7, OCSP: []string{c14URLA}})
-		hashA := sha1.Sum(oc.caA.Cert.RawSubject)
-		scs = append(scs, &schedScenario{Name: "s8d-ocsp-shared-responder-same-serial-two-issuers", Class: "ocsp",
-			Setup: func(x *schedCtx) {
-				net := world.NewNet()
-				net.Routes[c14URLA] = &world.Behaviour{Label: "ocsp", Fn: func(req *httpRequestAlias, body []byte) (int, []byte, error) {
-					r, err := xocsp.ParseRequest(body)
-					if err != nil {
-						return 400, nil, nil
-					}
-					iss, st := oc.caB, xocsp.Good
-					if bytes.Equal(r.IssuerNameHash, hashA[:]) {
-						iss, st = oc.caA, xocsp.Revoked
-					}
-					return 200, world.BuildOCSP(world.OCSPAnswer{Status: st, Serial: r.SerialNumber, Issuer: iss, Signer: iss, ThisUpdate: vsched.Epoch.Add(-time.Minute)}), nil
-				}}
-				x.Vals["ow"] = []*OW{NewOW(false, 10*time.Minute, nil, net)}
-			},
-			Ops: []schedOp{
-				{Name: "ocsp(V0,c1 of A)", Fn: func(x *schedCtx) string {
-					return x.Vals["ow"].([]*OW)[0].Lookup(oc.c1, world.Chain(oc.c1, oc.caA, oc.p.Root)).String()
-				}},
-				{Name: "ocsp(V0,same serial of B)", Fn: func(x *schedCtx) string {
-					return x.Vals["ow"].([]*OW)[0].Lookup(shared, world.Chain(shared, oc.caB, oc.p.Root)).String()
-				}},
-			},
-			Judge: func(obs []string) (string, string) {
-				if obs[0] != "REVOKED" || obs[1] != "OK" {
-					return "C13|answer-of-another-lookup|ocsp", fmt.Sprintf("two issuers, one responder address, one serial number, looked up at the same moment: the revoked certificate of CA A reads %s, the good one of CA B reads %s", obs[0], obs[1])
-				}
-				return "", ""
-			},
-		})
-		// s8e: two checkers of the process, default_cache_duration 1h and 0, are asked about the same certificate at the
-		// same moment (the responder gives no nextUpdate). Afterwards the responder says "revoked": the checker which
-		// caches nothing asks again and reports it
-		scs = append(scs, &schedScenario{Name: "s8e-ocsp-two-checkers-different-lifetimes-same-moment", Class: "ocsp",
-			Setup: func(x *schedCtx) {
-				net := world.NewNet()
-				x.Vals["revoked"] = false
-				net.Routes[c14URLA] = &world.Behaviour{Label: "ocsp", Fn: func(req *httpRequestAlias, body []byte) (int, []byte, error) {
-					r, err := xocsp.ParseRequest(body)
-					if err != nil {
-						return 400, nil, nil
-					}
-					st := xocsp.Good
-					if x.Vals["revoked"] == true {
-						st = xocsp.Revoked
-					}
-					return 200, world.BuildOCSP(world.OCSPAnswer{Status: st, Serial: r.SerialNumber, Issuer: oc.caA, Signer: oc.caA, ThisUpdate: vsched.Epoch.Add(-time.Minute)}), nil
-				}}
-				x.Vals["ow"] = []*OW{NewOW(false, time.Hour, nil, net), NewOW(false, 0, nil, net)}
-			},
-			Ops: []schedOp{
-				{Name: "ocsp(V0 1h,c2)", Fn: func(x *schedCtx) string {
-					return x.Vals["ow"].([]*OW)[0].Lookup(oc.c2, world.Chain(oc.c2, oc.caA, oc.p.Root)).String()
-				}},
-				{Name: "ocsp(V1 0,c2)", Fn: func(x *schedCtx) string {
-					return x.Vals["ow"].([]*OW)[1].Lookup(oc.c2, world.Chain(oc.c2, oc.caA, oc.p.Root)).String()
-				}},
-			},
-			Post: func(x *schedCtx) string {
-				x.Vals["revoked"] = true
-				return "zero-duration-checker-after-the-flip:" + x.Vals["ow"].([]*OW)[1].Lookup(oc.c2, world.Chain(oc.c2, oc.caA, oc.p.Root)).String()
-			},
-			Judge: func(obs []string) (string, string) {
-				if obs[2] != "zero-duration-checker-after-the-flip:REVOKED" {
-					return "C13|status-kept-under-another-checkers-lifetime|ocsp", "a checker with default_cache_duration 0 was asked while a checker with 1h was asking about the same certificate; after the responder flipped to revoked: " + obs[2]
-				}
-				return "", ""
-			},
-		})
+		scs = append(scs, ocspSharedResponderScenario("C13"), ocspTwoLifetimesScenario("C13"))
 	}
 	// s10: first use of two different distribution points at the same time (two new entries in the repository map)
 	scs = append(scs, &schedScenario{Name: name("s10-first-use-two-locations"),
@@ -766,4 +691,98 @@ func init() {
 		}
 		return 0
 	}
+}
+
+// ocspSharedResponderScenario (s8d) and ocspTwoLifetimesScenario (s8e) are explored by C13 and, with the verdict filed
+// under their property, by C05 (an answer counts only for exactly the presented certificate) and C14 (a status is kept
+// no longer than the asking checker's own configuration allows).
+func ocspSharedResponderScenario(prop string) *schedScenario {
+	oc := newC14Cast()
+	// s8d: two CAs name the same responder address and have issued the same serial number; the certificate of CA A is
+	// revoked, the one of CA B is good. Both are presented at the same moment on one checker: the answer to one lookup
+	// is never the answer to the other (every sequential order says REVOKED, OK)
+	shared := world.Issue(oc.caB, world.CertOpt{CN: "c13 same serial other issuer same responder", Serial: oc.c1.Cert.SerialNumber, KeyKind: "ec", KeyIdx: 7, OCSP: []string{c14URLA}})
+	hashA := sha1.Sum(oc.caA.Cert.RawSubject)
+	return &schedScenario{Name: "s8d-ocsp-shared-responder-same-serial-two-issuers", Class: "ocsp",
+		Setup: func(x *schedCtx) {
+			net := world.NewNet()
+			net.Routes[c14URLA] = &world.Behaviour{Label: "ocsp", Fn: func(req *httpRequestAlias, body []byte) (int, []byte, error) {
+				r, err := xocsp.ParseRequest(body)
+				if err != nil {
+					return 400, nil, nil
+				}
+				iss, st := oc.caB, xocsp.Good
+				if bytes.Equal(r.IssuerNameHash, hashA[:]) {
+					iss, st = oc.caA, xocsp.Revoked
+				}
+				return 200, world.BuildOCSP(world.OCSPAnswer{Status: st, Serial: r.SerialNumber, Issuer: iss, Signer: iss, ThisUpdate: vsched.Epoch.Add(-time.Minute)}), nil
+			}}
+			x.Vals["ow"] = []*OW{NewOW(false, 10*time.Minute, nil, net)}
+		},
+		Ops: []schedOp{
+			{Name: "ocsp(V0,c1 of A)", Fn: func(x *schedCtx) string {
+				return x.Vals["ow"].([]*OW)[0].Lookup(oc.c1, world.Chain(oc.c1, oc.caA, oc.p.Root)).String()
+			}},
+			{Name: "ocsp(V0,same serial of B)", Fn: func(x *schedCtx) string {
+				return x.Vals["ow"].([]*OW)[0].Lookup(shared, world.Chain(shared, oc.caB, oc.p.Root)).String()
+			}},
+		},
+		Judge: func(obs []string) (string, string) {
+			if obs[0] != "REVOKED" || obs[1] != "OK" {
+				return prop + "|answer-of-another-lookup|ocsp", fmt.Sprintf("two issuers, one responder address, one serial number, looked up at the same moment: the revoked certificate of CA A reads %s, the good one of CA B reads %s", obs[0], obs[1])
+			}
+			return "", ""
+		},
+	}
+
+}
+
+func ocspTwoLifetimesScenario(prop string) *schedScenario {
+	oc := newC14Cast()
+	// s8e: two checkers of the process, default_cache_duration 1h and 0, are asked about the same certificate at the
+	// same moment (the responder gives no nextUpdate). Afterwards the responder says "revoked": the checker which
+	// caches nothing asks again and reports it
+	return &schedScenario{Name: "s8e-ocsp-two-checkers-different-lifetimes-same-moment", Class: "ocsp",
+		Setup: func(x *schedCtx) {
+			net := world.NewNet()
+			x.Vals["revoked"] = false
+			net.Routes[c14URLA] = &world.Behaviour{Label: "ocsp", Fn: func(req *httpRequestAlias, body []byte) (int, []byte, error) {
+				r, err := xocsp.ParseRequest(body)
+				if err != nil {
+					return 400, nil, nil
+				}
+				st := xocsp.Good
+				if x.Vals["revoked"] == true {
+					st = xocsp.Revoked
+				}
+				return 200, world.BuildOCSP(world.OCSPAnswer{Status: st, Serial: r.SerialNumber, Issuer: oc.caA, Signer: oc.caA, ThisUpdate: vsched.Epoch.Add(-time.Minute)}), nil
+			}}
+			x.Vals["ow"] = []*OW{NewOW(false, time.Hour, nil, net), NewOW(false, 0, nil, net)}
+		},
+		Ops: []schedOp{
+			{Name: "ocsp(V0 1h,c2)", Fn: func(x *schedCtx) string {
+				return x.Vals["ow"].([]*OW)[0].Lookup(oc.c2, world.Chain(oc.c2, oc.caA, oc.p.Root)).String()
+			}},
+			{Name: "ocsp(V1 0,c2)", Fn: func(x *schedCtx) string {
+				return x.Vals["ow"].([]*OW)[1].Lookup(oc.c2, world.Chain(oc.c2, oc.caA, oc.p.Root)).String()
+			}},
+		},
+		Post: func(x *schedCtx) string {
+			x.Vals["revoked"] = true
+			return "zero-duration-checker-after-the-flip:" + x.Vals["ow"].([]*OW)[1].Lookup(oc.c2, world.Chain(oc.c2, oc.caA, oc.p.Root)).String()
+		},
+		Judge: func(obs []string) (string, string) {
+			if obs[2] != "zero-duration-checker-after-the-flip:REVOKED" {
+				return prop + "|status-kept-under-another-checkers-lifetime|ocsp", "a checker with default_cache_duration 0 was asked while a checker with 1h was asking about the same certificate; after the responder flipped to revoked: " + obs[2]
+			}
+			return "", ""
+		},
+	}
+}
+
+// exploreInProcess explores a small schedule scenario in this process (all schedules up to the preemption bound) and
+// files what it finds under the check.
+func exploreInProcess(chk *fw.Check, prop string, sc *schedScenario, bound int) schedReport {
+	out := exploreShardProp(prop, sc, sc.Class, bound, 200000, time.Now().Add(5*time.Minute), 0, 1, true, nil)
+	return mergeWorkerOuts(chk, sc.Name, []workerOut{out})
 }
